@@ -64,6 +64,8 @@ def dfltOfJson (j : Json) : Except String DefaultSp := do
     match how with
     | "eq" => pure (.eq v n)
     | "kw" => pure (.kw v n)
+    | "eqF" => pure (.eqF v n)
+    | "kwF" => pure (.kwF v n)
     | s => throw s!"default {s}"
 
 def fieldSpOfJson (j : Json) : Except String FieldSp := do
